@@ -42,6 +42,8 @@ def amplify(seed):
 def run_job(job, workdir):
     from pyndl import ndl
     kind = job["kind"]
+    if kind == "chain":
+        return capture(lambda: run_chain(job, workdir))
     if kind == "slice_list":
         return capture(lambda: ndl.slice_list(list(job["list"]), job["n"]))
     if job.get("amplify") is not None:
@@ -117,6 +119,56 @@ def run_job(job, workdir):
             return [[ratio(W[o, c]) for c in job["cols"]] for o in job["rows"]]
         return capture(go)
     raise ValueError(kind)
+
+
+def snapshot(w):
+    """deep, library-independent snapshot of a weights argument"""
+    import xarray as xr
+    if w is None:
+        return None
+    if isinstance(w, xr.DataArray):
+        return ("da", w.values.copy().tobytes(), [str(d) for d in w.dims],
+                {d: [str(x) for x in w.coords[d].values.tolist()] for d in w.dims}, dict(w.attrs))
+    return ("wd", {o: dict(row) for o, row in w.items()}, dict(w.attrs))
+
+
+def run_chain(job, workdir):
+    """parts: list of dicts(learner, events, pol) run one after the other through weights="""
+    from pyndl import ndl
+    p = job["p"]
+    alpha, betas, lam = from_ratio(p["alpha"]), (from_ratio(p["beta1"]), from_ratio(p["beta2"])), from_ratio(p["lam"])
+    pol = {0: None, 1: True, 2: False}[job.get("pol", 0)]
+    w = None
+    if job.get("weights") is not None:
+        w = to_da(job["weights"])
+    mutated = []
+    for k, part in enumerate(job["parts"]):
+        events = [(list(cs), list(os_)) for cs, os_ in part["events"]]
+        before = snapshot(w)
+        lrn = part["learner"]
+        if lrn in ("dict", "dict_da"):
+            if part.get("as_file"):
+                path = os.path.join(workdir, "part%d.tab.gz" % k)
+                write_event_file(path, events)
+                ev = path
+            else:
+                ev = events
+            w2 = ndl.dict_ndl(ev, alpha, betas, lam, weights=w, remove_duplicates=pol,
+                              make_data_array=(lrn == "dict_da"))
+        else:
+            path = os.path.join(workdir, "part%d.tab.gz" % k)
+            write_event_file(path, events)
+            w2 = ndl.ndl(path, alpha, betas, lam, method=lrn.split("_")[1], weights=w,
+                         n_jobs=part.get("n_jobs", 2), n_outcomes_per_job=part.get("n_outcomes_per_job", 3),
+                         remove_duplicates=pol, temporary_directory=workdir)
+        after = snapshot(w)
+        if before != after:
+            mutated.append(k)
+        w = w2
+    import xarray as xr
+    res = data_array_cells(w) if isinstance(w, xr.DataArray) else weight_dict_cells(w)
+    res["mutated_arguments"] = mutated
+    return res
 
 
 def handler(payload):
